@@ -1115,4 +1115,13 @@ theorem parseBody_render (op : List Char) (hop : OpWF op) (ts : List TBT) (hwf :
     parseBody false (renderBody op ts) = .ok ts :=
   parseBody_render_of_split op (splitOK_of_opWF op hop) ts hwf
 
+theorem opWF_OP : OpWF "OP".toList := ⟨by decide, by decide⟩
+
+/-- **legacy refutation on lines**: the pre-fix reader does not round-trip the rendered line -/
+theorem legacy_not_roundtrip_line :
+    extractInst true (renderInst "OP".toList legacyWitness) ≠ .ok legacyWitness := by
+  unfold extractInst
+  rw [splitOK_of_opWF _ opWF_OP legacyWitness legacyWitness_WF]
+  exact legacy_not_roundtrip
+
 end C20
